@@ -585,7 +585,30 @@ func (g *Gen) callee(t Ty, sc *Scope, d int) *Expr {
 	return g.Expr(t, sc, d, false)
 }
 
+// hostOperand: a binary operator with a host call on a constant as ONE operand and a
+// constant as the other one, in either order: whether the whole term may be folded is
+// decided by the purity of both operands.
+func (g *Gen) hostOperand(boolean bool) *Expr {
+	g.Stats["host_call_as_one_operand"]++
+	g.nodes += 4
+	host := SCall([]string{"ik", "ik", "pk"}[g.n(3, "operandHostFn")], Int(rapid.IntRange(-2, 6).Draw(g.T, "operandHostArg")))
+	var other *Expr = Int(rapid.IntRange(-2, 6).Draw(g.T, "operandConst"))
+	op := []string{"&", "|", "&", "|", "+", "*", "-"}[g.n(7, "operandOp")]
+	if boolean {
+		host = Bin([]string{"=", "<", ">="}[g.n(3, "operandCmp")], host, Int(rapid.IntRange(-2, 6).Draw(g.T, "operandCmpConst")))
+		other = Bool(g.chance(50, "operandBool"))
+		op = []string{"&", "|"}[g.n(2, "operandLogic")]
+	}
+	if g.chance(50, "operandSwap") {
+		return Bin(op, other, host)
+	}
+	return Bin(op, host, other)
+}
+
 func (g *Gen) genInt(sc *Scope, d int) *Expr {
+	if g.C.Host && g.chance(3, "hostOperandInt") {
+		return g.hostOperand(false)
+	}
 	c := g.n(100, "intProd")
 	switch {
 	case g.C.Host && g.closed == 0 && c >= 88 && c < 95:
@@ -833,6 +856,9 @@ func (g *Gen) genStr(sc *Scope, d int) *Expr {
 }
 
 func (g *Gen) genBool(sc *Scope, d int) *Expr {
+	if g.C.Host && g.chance(5, "hostOperandBool") {
+		return g.hostOperand(true)
+	}
 	c := g.n(100, "boolProd")
 	switch {
 	case c < 35:
